@@ -108,7 +108,7 @@ def execute(sc, ctx):
         except Exception as e:
             ctx.counters["op_raised:write_config/" + type(e).__name__] += 1
             return
-        b1 = open(f, encoding="utf-8").read()
+        b1 = open(f, encoding="utf-8", errors="surrogateescape").read()
         key.append(b1)
         if v1 is None:
             v1 = ops.values(k)
